@@ -178,6 +178,11 @@ func (d *disp) VarlinkDispatch(ctx context.Context, c varlink.Call, method strin
 				}
 				log("L:ok")
 			}
+		case 'T':
+			// a handler error of the timeout class (a sub-operation of the handler ran out of time) while the
+			// connection's own context is alive: a handler error like any other
+			log("T")
+			return fmt.Errorf("backend: %w", context.DeadlineExceeded)
 		case 'X':
 			log("X")
 			return errors.New("handler error")
